@@ -57,22 +57,24 @@ func (f *FuncDecl) Key() string { return FuncKey(f.Obj) }
 
 // Program is the loaded repository.
 type Program struct {
-	Dir      string
-	Fset     *token.FileSet
-	Pkgs     []*packages.Package // module packages only, sorted by path
-	ByPath   map[string]*packages.Package
-	Funcs    []*FuncDecl // every source function with a body (production packages)
-	ByObj    map[*types.Func]*FuncDecl
-	byKey    map[string]*FuncDecl
-	Named    []*types.Named // named types declared in production packages
-	Overlay  map[string][]byte
-	ssaProg  *ssa.Program
-	ssaPkgs  []*ssa.Package
-	cg       *callgraph.Graph
-	astCalls map[*types.Func][]*types.Func // static+interface-expanded callees from AST
-	reach    map[*types.Func]map[*types.Func]bool
-	renames  []string
-	inlined  map[string]string // "pkg|recv|name" of a vanished function -> key of the only caller it had
+	Dir        string
+	Fset       *token.FileSet
+	Pkgs       []*packages.Package // module packages only, sorted by path
+	ByPath     map[string]*packages.Package
+	Funcs      []*FuncDecl // every source function with a body (production packages)
+	ByObj      map[*types.Func]*FuncDecl
+	byKey      map[string]*FuncDecl
+	Named      []*types.Named // named types declared in production packages
+	Overlay    map[string][]byte
+	ssaProg    *ssa.Program
+	ssaPkgs    []*ssa.Package
+	cg         *callgraph.Graph
+	astCalls   map[*types.Func][]*types.Func // static+interface-expanded callees from AST
+	reach      map[*types.Func]map[*types.Func]bool
+	renames    []string
+	unresolved []string
+	litKeys    []litKeyName
+	inlined    map[string]string // "pkg|recv|name" of a vanished function -> key of the only caller it had
 }
 
 // skipPkg lists module packages that hold test support code only; they are
@@ -231,6 +233,16 @@ func (p *Program) Func(pkgPath, recv, name string) *FuncDecl {
 			return f
 		}
 	}
+	// a method turned into a function (or moved to another receiver of the package): the only function of that name
+	var sameName []*FuncDecl
+	for _, f := range p.Funcs {
+		if f.Pkg.PkgPath == pkgPath && RefName(f.Obj) == name {
+			sameName = append(sameName, f)
+		}
+	}
+	if len(sameName) == 1 {
+		return sameName[0]
+	}
 	if caller, ok := p.inlined[pkgPath+"|"+recv+"|"+name]; ok {
 		if fd := p.byKey[caller]; fd != nil {
 			note := FuncKeyRaw(pkgPath, recv, name) + " (gone; its only caller on the reference tree is read instead) -> " + caller
@@ -343,8 +355,15 @@ func (p *Program) SSA() (*ssa.Program, []*ssa.Package) {
 	if p.ssaProg != nil {
 		return p.ssaProg, p.ssaPkgs
 	}
+	// go/ssa resolves the keys of struct literals by their text: while it is built they read as written
+	for _, k := range p.litKeys {
+		k.id.Name = k.real
+	}
 	prog, pkgs := ssautil.Packages(p.Pkgs, ssa.InstantiateGenerics)
 	prog.Build()
+	for _, k := range p.litKeys {
+		k.id.Name = k.ref
+	}
 	p.ssaProg, p.ssaPkgs = prog, pkgs
 	return prog, pkgs
 }
